@@ -3399,3 +3399,400 @@ func lmCheckRegion(c *Ctx, lm *ssa.Function, vals []lmValidator) {
 		}
 	}
 }
+
+// ---- DECODEGUARD: decoders neither skip the decoding nor refuse legal nodes -------
+//
+// (G1) "decoded nothing but said ok": in a decoder on the load path that fills
+// the result node's Key/Value/Link element by element in a loop over a decoded
+// list S, no return with a nil error is reachable without entering the loop
+// body when S is non-empty.
+// (G2) exact witness guard: where reflect.New(TypeOf(m.F)) is protected by a
+// rejection for "the type witness m.F is unset", that rejection must not fire
+// when the list the witness is needed for is empty: an error return reachable
+// under {F nil, len(S)=0} must also be reachable under {F non-nil, len(S)=0}.
+// Both are decided by valuation-pruned reachability (DESIGN §3.2).
+
+// lmVal2 is a valuation: the configuration field at nilSym is nil / non-nil
+// (nilKnown), and the list with symbolic path lenSym has lo ≤ len ≤ hi.
+type lmValuation struct {
+	nilSym   string
+	nilKnown bool
+	isNil    bool
+	lenSym   string
+	lo, hi   int64 // hi < 0: unbounded
+	first    bool  // loop counters have their initial value (the loop body is being avoided)
+}
+
+func (V *lmValuation) lenCmp(op token.Token, t int64) (val, known bool) {
+	// len op t for every len in [lo, hi]
+	lo, hi := V.lo, V.hi
+	inf := hi < 0
+	switch op {
+	case token.GTR:
+		if lo > t {
+			return true, true
+		}
+		if !inf && hi <= t {
+			return false, true
+		}
+	case token.GEQ:
+		if lo >= t {
+			return true, true
+		}
+		if !inf && hi < t {
+			return false, true
+		}
+	case token.LSS:
+		if !inf && hi < t {
+			return true, true
+		}
+		if lo >= t {
+			return false, true
+		}
+	case token.LEQ:
+		if !inf && hi <= t {
+			return true, true
+		}
+		if lo > t {
+			return false, true
+		}
+	case token.EQL:
+		if !inf && lo == hi && lo == t {
+			return true, true
+		}
+		if lo > t || (!inf && hi < t) {
+			return false, true
+		}
+	case token.NEQ:
+		if lo > t || (!inf && hi < t) {
+			return true, true
+		}
+		if !inf && lo == hi && lo == t {
+			return false, true
+		}
+	}
+	return false, false
+}
+
+// eval evaluates a branch condition under the valuation.
+func (V *lmValuation) eval(cond ssa.Value) (val, known bool) {
+	if v, ok := ir.ConstBool(cond); ok {
+		return v, true
+	}
+	neg := false
+	for {
+		u, ok := cond.(*ssa.UnOp)
+		if !ok || u.Op != token.NOT {
+			break
+		}
+		neg = !neg
+		cond = u.X
+	}
+	fin := func(v, k bool) (bool, bool) {
+		if neg {
+			return !v, k
+		}
+		return v, k
+	}
+	if tv, tnn, ok := ir.NilTest(cond); ok {
+		if V.nilKnown && lmNilVal(tv, V.nilSym) {
+			return fin(V.isNil != tnn, true)
+		}
+		if V.lenSym != "" && V.lo >= 1 && ir.Sym(tv) == V.lenSym {
+			return fin(tnn, true) // a non-empty list is not nil
+		}
+		return false, false
+	}
+	bin, ok := cond.(*ssa.BinOp)
+	if !ok || lpNegOp(bin.Op) == token.ILLEGAL || V.lenSym == "" {
+		return false, false
+	}
+	op := bin.Op
+	x, y := bin.X, bin.Y
+	// len(S)+off op const
+	if _, isC := lmConstInt(x); isC {
+		x, y = y, x
+		op = lpFlipOp(op)
+	}
+	if s, off, isL := lmLenPlus(x); isL && s == V.lenSym {
+		if n, isC := lmConstInt(y); isC {
+			return fin(V.lenCmp(op, n-off))
+		}
+	}
+	// counter+k < len(S)+off
+	x, y, op = bin.X, bin.Y, bin.Op
+	if op == token.GTR {
+		x, y, op = y, x, token.LSS
+	}
+	if op == token.LSS {
+		if c0, k, okc := lmCounterMin(x); okc {
+			if s, off, isL := lmLenPlus(y); isL && s == V.lenSym {
+				if V.hi >= 0 && c0+k >= V.hi+off {
+					return fin(false, true) // the loop is never entered
+				}
+				if V.first && c0+k < V.lo+off {
+					return fin(true, true) // first test of the loop: entered
+				}
+			}
+		}
+	}
+	return false, false
+}
+
+// reach: blocks reachable from the entry under the valuation, never entering avoid.
+func (V *lmValuation) reach(fn *ssa.Function, avoid *ssa.BasicBlock) map[*ssa.BasicBlock]bool {
+	return ir.ReachableFrom(fn.Blocks[0], func(a, b *ssa.BasicBlock) bool {
+		if b == avoid {
+			return true
+		}
+		if len(a.Instrs) == 0 || len(a.Succs) != 2 || a.Succs[0] == a.Succs[1] {
+			return false
+		}
+		iff, ok := a.Instrs[len(a.Instrs)-1].(*ssa.If)
+		if !ok {
+			return false
+		}
+		v, known := V.eval(iff.Cond)
+		if !known {
+			return false
+		}
+		if v {
+			return b == a.Succs[1]
+		}
+		return b == a.Succs[0]
+	})
+}
+
+// lmElemLoop is a loop `for counter+k < len(S)+off` whose body stores into
+// elements of a node's Key/Value/Link.
+type lmElemLoop struct {
+	hdr    *ssa.BasicBlock
+	body   *ssa.BasicBlock
+	blocks map[*ssa.BasicBlock]bool
+	lenSym string
+	fields []string
+}
+
+func lmElemLoops(fn *ssa.Function) []*lmElemLoop {
+	var out []*lmElemLoop
+	for _, p := range fn.Blocks {
+		if len(p.Instrs) == 0 || len(p.Succs) != 2 {
+			continue
+		}
+		iff, ok := p.Instrs[len(p.Instrs)-1].(*ssa.If)
+		if !ok {
+			continue
+		}
+		bin, ok := iff.Cond.(*ssa.BinOp)
+		if !ok {
+			continue
+		}
+		x, y, op := bin.X, bin.Y, bin.Op
+		if op == token.GTR {
+			x, y, op = y, x, token.LSS
+		}
+		if op != token.LSS {
+			continue
+		}
+		if _, _, okc := lmCounterMin(x); !okc {
+			continue
+		}
+		s, _, isL := lmLenPlus(y)
+		if !isL {
+			continue
+		}
+		body := p.Succs[0]
+		blocks := map[*ssa.BasicBlock]bool{}
+		for _, b := range fn.Blocks {
+			if p.Dominates(b) && ir.CanReach(b, p) {
+				blocks[b] = true
+			}
+		}
+		if !blocks[body] {
+			continue
+		}
+		seen := map[string]bool{}
+		var fields []string
+		for b := range blocks {
+			for _, ins := range b.Instrs {
+				st, ok := ins.(*ssa.Store)
+				if !ok {
+					continue
+				}
+				ia, ok := st.Addr.(*ssa.IndexAddr)
+				if !ok {
+					continue
+				}
+				if f, _, _, isL := lmNodeList(ia.X); isL && !seen[f] {
+					seen[f] = true
+					fields = append(fields, f)
+				}
+			}
+		}
+		if len(fields) == 0 {
+			continue
+		}
+		sort.Strings(fields)
+		out = append(out, &lmElemLoop{hdr: p, body: body, blocks: blocks, lenSym: s, fields: fields})
+	}
+	return out
+}
+
+func lmLenName(sym string) string {
+	if i := strings.LastIndex(sym, "."); i >= 0 {
+		return sym[i+1:]
+	}
+	return "list"
+}
+
+func init() {
+	Register(&Rule{
+		ID:    "DECODEGUARD",
+		Props: []string{"C05", "C19"},
+		Min:   2,
+		Doc: "node decoders on the load path that fill the node's lists element by element: (G1) when the decoded list is non-empty, no return with a nil " +
+			"error is reachable without entering the loop that fills the elements (a decoder must not report success without decoding); (G2) a rejection " +
+			"that depends on a type witness (configuration field) being unset must not fire when the list the witness is needed for is empty — every error " +
+			"return reachable under {witness nil, list empty} is also reachable under {witness set, list empty}.",
+		Run: runDECODEGUARD,
+	})
+}
+
+func runDECODEGUARD(c *Ctx) {
+	P := c.P
+	lm := c.MustFunc("(*Root).LoadMast")
+	if lm == nil {
+		return
+	}
+	pr := newLpPrune(c)
+	res := newLpResolver(c)
+	reach := map[*ssa.Function]bool{lm: true}
+	q := []*ssa.Function{lm}
+	var fns []*ssa.Function
+	for len(q) > 0 {
+		fn := q[0]
+		q = q[1:]
+		fns = append(fns, fn)
+		f := pr.of(fn)
+		for _, b := range fn.Blocks {
+			if !f.live[b] {
+				continue
+			}
+			for _, ins := range b.Instrs {
+				var next []*ssa.Function
+				switch x := ins.(type) {
+				case ssa.CallInstruction:
+					next = append(next, res.Callees(x)...)
+				case *ssa.MakeClosure:
+					if g, ok := x.Fn.(*ssa.Function); ok {
+						next = append(next, g)
+					}
+				}
+				for _, g := range next {
+					if !reach[g] && g.Blocks != nil {
+						reach[g] = true
+						q = append(q, g)
+					}
+				}
+			}
+		}
+	}
+	sort.Slice(fns, func(i, j int) bool { return ir.PosLess(fns[i].Pos(), fns[j].Pos()) })
+	errRets := func(fn *ssa.Function, blocks map[*ssa.BasicBlock]bool, want int) []*ssa.Return {
+		ei := ir.ErrorResultIndex(fn.Signature)
+		var out []*ssa.Return
+		for _, r := range ir.Returns(fn) {
+			if !blocks[r.Block()] || ei >= len(r.Results) {
+				continue
+			}
+			k := lpErrClass(r.Results[ei], r.Block(), 0)
+			if (want == lpErrNonNil) == (k == lpErrNonNil) {
+				out = append(out, r)
+			}
+		}
+		return out
+	}
+	for _, fn := range fns {
+		if ir.ErrorResultIndex(fn.Signature) < 0 {
+			continue
+		}
+		loops := lmElemLoops(fn)
+		for _, L := range loops {
+			name := lmLenName(L.lenSym)
+			pos := P.InstrPos(L.hdr.Instrs[len(L.hdr.Instrs)-1])
+			// (G1)
+			V := &lmValuation{lenSym: L.lenSym, lo: 1, hi: -1, first: true}
+			blocks := V.reach(fn, L.body)
+			what := fmt.Sprintf("decoder %s fills %s from %s", ir.FuncName(fn), strings.Join(L.fields, ","), name)
+			bad := errRets(fn, blocks, lpErrNil)
+			if len(bad) == 0 {
+				c.OK(pos, what, "with a non-empty "+name+" no success return is reachable without entering the element loop", false)
+			} else {
+				c.Violation(fn, P.InstrPos(bad[0]), "success return without decoding "+strings.Join(L.fields, ","),
+					fmt.Sprintf("%s can return a nil error at %s although the decoded %s list is non-empty and the loop that fills %s of the node was never entered: the decoder reports success without decoding, and a stored node silently reads back as a different (empty-entried) node",
+						ir.FuncName(fn), P.InstrPos(bad[0]), name, strings.Join(L.fields, ",")))
+			}
+			// (G2) for every configuration field the loop needs
+			seenF := map[string]bool{}
+			var lbs []*ssa.BasicBlock
+			for b := range L.blocks {
+				lbs = append(lbs, b)
+			}
+			sort.Slice(lbs, func(i, j int) bool { return lbs[i].Index < lbs[j].Index })
+			for _, b := range lbs {
+				for _, ins := range b.Instrs {
+					u, ok := ins.(*ssa.UnOp)
+					if !ok || u.Op != token.MUL {
+						continue
+					}
+					fa, ok := u.X.(*ssa.FieldAddr)
+					if !ok || !lpIsMastPtr(fa.X.Type()) || !types.IsInterface(u.Type()) {
+						continue
+					}
+					sym := ir.Sym(fa)
+					if seenF[sym] {
+						continue
+					}
+					seenF[sym] = true
+					fname := ir.FieldName(fa.X.Type(), fa.Field)
+					// only fields the function tests against nil
+					tested := false
+					for _, bb := range fn.Blocks {
+						if len(bb.Instrs) == 0 {
+							continue
+						}
+						if iff, ok := bb.Instrs[len(bb.Instrs)-1].(*ssa.If); ok {
+							if tv, _, ok := ir.NilTest(iff.Cond); ok && lmNilVal(tv, sym) {
+								tested = true
+							}
+						}
+					}
+					if !tested {
+						continue
+					}
+					Va := &lmValuation{nilSym: sym, nilKnown: true, isNil: true, lenSym: L.lenSym, lo: 0, hi: 0}
+					Vb := &lmValuation{nilSym: sym, nilKnown: true, isNil: false, lenSym: L.lenSym, lo: 0, hi: 0}
+					ra := errRets(fn, Va.reach(fn, nil), lpErrNonNil)
+					rbm := map[*ssa.Return]bool{}
+					for _, r := range errRets(fn, Vb.reach(fn, nil), lpErrNonNil) {
+						rbm[r] = true
+					}
+					what := fmt.Sprintf("rejections of %s that depend on m.%s being unset (needed for %s)", ir.FuncName(fn), fname, name)
+					var extra *ssa.Return
+					for _, r := range ra {
+						if !rbm[r] {
+							extra = r
+						}
+					}
+					if extra == nil {
+						c.OK(pos, what, "none fires for an empty "+name, false)
+					} else {
+						c.Violation(fn, P.InstrPos(extra), fmt.Sprintf("rejects an empty %s when m.%s is unset", name, fname),
+							fmt.Sprintf("%s returns the error at %s when m.%s is nil even though the %s list is empty, i.e. no element needs the type witness: a legal node without entries (the empty node) cannot be loaded when the configuration leaves the witness unset",
+								ir.FuncName(fn), P.InstrPos(extra), fname, name))
+					}
+				}
+			}
+		}
+	}
+}
